@@ -78,6 +78,7 @@ def run(rep, tier):
         else:
             recs.append(r)
     vlib.write_ndjson(tpath, [{k: v for k, v in r.items() if v is not None} for r in recs])
+    vlib.maybe_corrupt(tpath)
     nrec, bad = vlib.validate_trace(rep, "C16", "Trace_C16", tpath, stack="1g")
     for i in bad:
         r = recs[i - 1]
